@@ -225,3 +225,18 @@ Proof.
     + intros b data Hi Hr. destruct (Hh _ _ Hi) as ((blk & Hin & Hb & Hlen) & _).
       apply Hnc. exists blk. split; [exact Hin|lia].
 Qed.
+
+(* the verifier: a bit in its result means that every byte of the piece was read and equals the content *)
+Lemma verifier_marks_only_good_pieces np r bits : run_verifier (np :: r) = 0 :: bits ->
+  forall i, nth i bits 0 = 1 ->
+  exists s e, nth_error (firstn (Z.to_nat np) (ver_pairs r)) i = Some (s, e) /\ s = false /\ e = true.
+Proof.
+  unfold run_verifier. set (ps := firstn (Z.to_nat np) (ver_pairs r)).
+  destruct (existsb fst ps) eqn:E; [discriminate|]. intros H i Hi. injection H as <-.
+  assert (G : forall (l : list (bool * bool)) i, existsb fst l = false -> nth i (map (fun p => b2z (snd p)) l) 0 = 1 ->
+              exists s e, nth_error l i = Some (s, e) /\ s = false /\ e = true).
+  { induction l as [|[s e] l IH]; intros [|k] Hf Hn; cbn in *; try discriminate.
+    - apply orb_false_iff in Hf. destruct Hf as [Hs _]. exists s, e. destruct e; [auto|discriminate].
+    - apply orb_false_iff in Hf. destruct Hf as [_ Hl]. exact (IH k Hl Hn). }
+  exact (G ps i E Hi).
+Qed.
